@@ -16,7 +16,7 @@ EXPLANATION = (
     "is incremented with the assignment (R4).")
 ASSUMPTIONS = ["hwloc-based topology queries return consistent numbers", "pika::detail::throws_if throws unless the caller supplied an error_code"]
 THOROUGH_CONFIGS = [["-UNDEBUG", "-DPIKA_DEBUG"]]
-FLOORS = {"C15.R1": 6, "C15.R2": 4, "C15.R3": 8, "C15.R4": 4, "C15.R5": 8, "C15.R6": 4, "C15.R7": 2}
+FLOORS = {"C15.R1": 6, "C15.R2": 4, "C15.R3": 8, "C15.R4": 4, "C15.R5": 8, "C15.R6": 4, "C15.R7": 2, "C15.R8": 3}
 
 DEC = ["decode_compact_distribution", "decode_scatter_distribution", "decode_balanced_distribution", "decode_numabalanced_distribution"]
 
@@ -380,6 +380,56 @@ def run(rep, tier):
                         "other PUs than the ones given - workers are bound outside the requested process mask" % (f.qname.rsplit("::", 1)[-1], obj, obj, seen_tests[:2]))
     if n6 < 4:
         raise AnalysisBroken("C15.R6: only %d physical->logical conversions found in topology.cpp" % n6)
+
+    # ---- R8: logical -> physical conversions (what the worker is actually bound to)
+    rep.rule("C15.R8", "K8 (index spaces, the other direction): where a pika mask is turned into an OS cpuset (set_thread_affinity_mask, which binds the worker, and mask_to_bitmap), "
+             "bit i of the mask selects the PU object with logical index i (hwloc_get_obj_by_depth(.., i)) and sets the cpuset bit of that object's os_index - hwloc cpusets "
+             "are numbered by OS CPU index. Setting the logical index instead binds the worker to another CPU on every machine whose OS numbering differs from the "
+             "logical order (SMT siblings numbered #cores + c): the PU pika reports is not the one the worker runs on, and workers leave the process mask")
+    n8 = 0
+    for f in TP.fns:
+        if f.parent != -1:
+            continue
+        sets = [(b, i, e) for b, i, e in f.all_events() if e.get("k") == "call" and callee_short(e) == "hwloc_bitmap_set" and len(e.get("args", [])) == 2]
+        if not sets:
+            continue
+        ff8 = FactFlow(f, eh=False)
+        short = f.qname.rsplit("::", 1)[-1]
+        for b, i, e in sets:
+            n8 += 1
+            at = T(strip(e["args"][1]))
+            m = re.match(r"^(\w+)->os_index$", at)
+            why = None
+            if not m:
+                why = "sets cpuset bit '%s', which is not the os_index of a PU object" % at
+            else:
+                obj = m.group(1)
+                ini = reaching_init(f, obj, (b, i))
+                mi = re.match(r"^hwloc_get_obj_by_depth\(.*,\s*(\w+)\)$", T(strip(ini))) if ini is not None else None
+                if not mi:
+                    why = "takes os_index from '%s', which is not the object hwloc_get_obj_by_depth(.., i) of the tested bit" % obj
+                else:
+                    iv = mi.group(1)
+                    fb = ff8.before.get((b, i)) or frozenset()
+                    if not any(t and re.match(r"^test\(\w+,%s\)$" % re.escape(iv), a) for a, t in fb):
+                        why = "sets the bit of PU %s without bit %s of the mask having tested true" % (iv, iv)
+            if why is None:
+                rep.ok("C15.R8", f, "%s: mask bit i -> PU object with logical index i -> cpuset bit os_index" % short)
+            else:
+                rep.bad("C15.R8", f, loc_of(e), "os-index:" + short, "%s %s: the OS cpuset handed to hwloc is numbered by OS CPU index; the worker is bound to a different "
+                        "CPU than the PU pika reports for it wherever the two numberings differ" % (short, why))
+    if n8 < 2:
+        raise AnalysisBroken("C15.R8: only %d logical->physical conversions found in topology.cpp" % n8)
+    stm = [f for f in TP.fns if f.parent == -1 and f.qname.endswith("topology::set_thread_affinity_mask")]
+    if not stm or not any(e.get("k") == "call" and callee_short(e) == "hwloc_bitmap_set" for _, _, e in stm[0].all_events()):
+        rep.bad("C15.R8", stm[0] if stm else TP.fns[0], (stm[0].loc if stm else ""), "os-index:no-conversion", "set_thread_affinity_mask no longer converts the mask bit by bit into an OS cpuset")
+    else:
+        cb = [(b, i, e) for b, i, e in stm[0].all_events() if e.get("k") == "call" and callee_short(e) == "hwloc_set_cpubind"]
+        cs = set(P(e["args"][0]) for _, _, e in stm[0].all_events() if e.get("k") == "call" and callee_short(e) == "hwloc_bitmap_set")
+        if cb and all(P(strip(e["args"][1])) in cs for _, _, e in cb):
+            rep.ok("C15.R8", stm[0], "set_thread_affinity_mask binds with the cpuset it converted (%d hwloc_set_cpubind calls)" % len(cb))
+        else:
+            rep.bad("C15.R8", stm[0], stm[0].loc, "os-index:bind-other-set", "set_thread_affinity_mask calls hwloc_set_cpubind with a set other than the converted cpuset")
 
     # ---- R3
     PL = facts(rep, lib("thread_pools", "src/scheduled_thread_pool.cpp"), [r"^pika::threads::detail::scheduled_thread_pool::(thread_func|run)$"])
